@@ -13,6 +13,8 @@ pub struct Gen<'a> {
     cnt: BTreeMap<&'static str, u64>,
     atom_cnt: [u64; 14],
     buf: usize,
+    /// reduced streams (the debug-profile run: `--profile debug`)
+    lite: bool,
 }
 
 /// one (input, script) pair, prepared once and emitted under several schedules
@@ -95,7 +97,7 @@ impl<'a> Gen<'a> {
             line.push_str(" ; ");
             line.push_str(&p.script);
         }
-        if stream == "stream6_out_of_domain" {
+        if stream == "stream6_out_of_domain" || stream == "stream6b_non_ascii_counted_only" {
             // twin line: all results as raw, `S any` (differences between model and implementation outside the domain
             // are counted by `check`, never a verdict)
             let mut twin = String::with_capacity(line.len() + 8);
@@ -113,7 +115,13 @@ impl<'a> Gen<'a> {
             (self.emit)(twin);
             self.bump("lines_total");
             self.bump("stream6_full_twins");
+            if stream == "stream6b_non_ascii_counted_only" {
+                // bytes >= 0x80 are outside the property's domain (ASCII inputs): only the twin line, nothing is constrained
+                self.bump(stream);
+                return;
+            }
         }
+        self.note_bytes(&p.data);
         (self.emit)(line);
         self.bump("lines_total");
         self.bump(stream);
@@ -629,6 +637,33 @@ pub fn int_token(rng: &mut SplitMix64, a: Atom) -> Vec<u8> {
     t
 }
 
+/// A non-whitespace ASCII byte outside the printable range: NUL (the value `peek` yields at end of input - a token
+/// byte like any other), the other C0 controls that are not `is_ascii_whitespace` (VT 0x0b among them), DEL.
+/// (seeded C09_m10: the token loops treated a NUL byte as the end of the token.)
+pub fn odd_byte(rng: &mut SplitMix64) -> u8 {
+    const CTRL: [u8; 26] = [1, 2, 3, 4, 5, 6, 7, 8, 0x0e, 0x0f, 0x10, 0x11, 0x12, 0x13, 0x14, 0x15, 0x16, 0x17, 0x18, 0x19, 0x1a, 0x1b, 0x1c, 0x1d, 0x1e, 0x1f];
+    match rng.below(8) {
+        0..=3 => 0,
+        4 => 0x0b,
+        5 => 0x7f,
+        _ => *rng.pick(&CTRL),
+    }
+}
+
+/// with probability 1/5 put one or two such bytes somewhere (first, middle, last position alike)
+fn sprinkle_odd(rng: &mut SplitMix64, w: &mut [u8]) {
+    if !w.is_empty() && rng.chance(1, 5) {
+        for _ in 0..1 + rng.below(2) {
+            let at = match rng.below(4) {
+                0 => 0,
+                1 => w.len() - 1,
+                _ => rng.below(w.len() as u64) as usize,
+            };
+            w[at] = odd_byte(rng);
+        }
+    }
+}
+
 pub fn word(rng: &mut SplitMix64, len: usize) -> Vec<u8> {
     let mut w: Vec<u8> = (0..len).map(|_| 0x21 + rng.below(0x7e - 0x21 + 1) as u8).collect();
     if len > 0 {
@@ -638,11 +673,14 @@ pub fn word(rng: &mut SplitMix64, len: usize) -> Vec<u8> {
             _ => {}
         }
     }
+    sprinkle_odd(rng, &mut w);
     w
 }
 
 pub fn printable(rng: &mut SplitMix64, len: usize) -> Vec<u8> {
-    (0..len).map(|_| 0x20 + rng.below(0x7e - 0x20 + 1) as u8).collect()
+    let mut w: Vec<u8> = (0..len).map(|_| 0x20 + rng.below(0x7e - 0x20 + 1) as u8).collect();
+    sprinkle_odd(rng, &mut w);
+    w
 }
 
 pub fn rand_sep(rng: &mut SplitMix64, out: &mut Vec<u8>) {
@@ -667,7 +705,7 @@ pub fn token_for(rng: &mut SplitMix64, a: Atom) -> Vec<u8> {
             let l = if rng.chance(1, 8) { 21 + rng.below(40) } else { 1 + rng.below(12) } as usize;
             word(rng, l)
         }
-        Atom::Chr => vec![0x21 + rng.below(0x7e - 0x21 + 1) as u8],
+        Atom::Chr => vec![if rng.chance(1, 6) { odd_byte(rng) } else { 0x21 + rng.below(0x7e - 0x21 + 1) as u8 }],
         _ => int_token(rng, a),
     }
 }
@@ -887,13 +925,19 @@ pub fn gen(args: &Args, emit: &mut dyn FnMut(String), st: &mut Stats) {
     st.add("buf_observed_first_read_slice", observed as u64);
     st.add(if extracted.is_some() { "buf_from_source_text" } else { "buf_from_observation" }, 1);
     let mut rng = SplitMix64::new(args.seed ^ 0xC08);
-    let mut g = Gen { emit, cnt: BTreeMap::new(), atom_cnt: [0; 14], buf };
+    let lite = args.extra.get("profile").map(|p| p == "debug").unwrap_or(false);
+    if lite {
+        st.add("reduced_streams_for_debug_profile", 1);
+    }
+    let mut g = Gen { emit, cnt: BTreeMap::new(), atom_cnt: [0; 14], buf, lite };
     crate::streams::stream_small(&mut g, &mut rng, thorough);
     crate::streams::stream_grammar(&mut g, &mut rng, thorough);
     crate::streams::stream_lines(&mut g, &mut rng, thorough);
     crate::big::stream_boundary(&mut g, &mut rng, thorough);
     crate::big::stream_long(&mut g, &mut rng, thorough);
     crate::streams::stream_ood(&mut g, &mut rng, thorough);
+    crate::streams::stream_non_ascii(&mut g, &mut rng, thorough);
+    crate::mgen::stream_multi(&mut g, &mut rng, thorough);
     for (k, v) in &g.cnt {
         st.add(k, *v);
     }
@@ -907,7 +951,56 @@ impl<'a> Gen<'a> {
     pub fn buf(&self) -> usize {
         self.buf
     }
+    /// stream size: (quick, thorough) of the release run, (quick, thorough) of the reduced debug-profile run
+    pub fn size(&self, thorough: bool, full: (usize, usize), lite: (usize, usize)) -> usize {
+        let (q, t) = if self.lite { lite } else { full };
+        if thorough {
+            t
+        } else {
+            q
+        }
+    }
+    pub fn lite(&self) -> bool {
+        self.lite
+    }
     pub fn emit_count_pair(&mut self, k: &'static str) {
         self.bump(k);
+    }
+    /// which unusual bytes a (constrained) case contains
+    pub fn note_bytes(&mut self, data: &[u8]) {
+        if data.contains(&0) {
+            self.bump("cases_with_nul_byte");
+            if data.last() == Some(&0) {
+                self.bump("cases_input_ends_in_nul");
+            }
+        }
+        if data.iter().any(|&b| (b != 0 && b < 0x20 && !crate::is_ws(b)) || b == 0x7f) {
+            self.bump("cases_with_control_or_del_byte");
+        }
+        if data.contains(&0x0b) {
+            self.bump("cases_with_vt_byte");
+        }
+    }
+    /// a ready-made case line (multi-reader stream): counted under `lines_total` and every key of `keys`
+    pub fn emit_line(&mut self, line: String, keys: &[&'static str]) {
+        (self.emit)(line);
+        self.bump("lines_total");
+        for k in keys {
+            self.bump(k);
+        }
+    }
+    pub fn add(&mut self, k: &'static str, n: u64) {
+        *self.cnt.entry(k).or_insert(0) += n;
+    }
+    pub fn count_atoms(&mut self, ops: &[Op]) {
+        let p = prep(&[], ops);
+        for (k, v) in &p.opc {
+            if *k != "script_empty" {
+                *self.cnt.entry(*k).or_insert(0) += *v;
+            }
+        }
+        for i in 0..14 {
+            self.atom_cnt[i] += p.atoms[i];
+        }
     }
 }
